@@ -12,6 +12,9 @@ from pyvc import theory
 r = theory.selftest_schemas()
 assert not r['bad'], r
 print('schema selftest ok', r['cases'])
+r2 = theory.selftest_instances(24)
+assert not r2['bad'], r2
+print('axiom-instance soundness fuzz ok', r2['cases'])
 " || exit 1
 SHA=$(cat lean/FpyLemmas.lean pyvc/theory.py | sha256sum | cut -c1-16)
 if [ "${VERIF_SKIP_LEAN:-0}" = "1" ]; then
